@@ -49,6 +49,8 @@ def _case(rng, fam, gseed, cfgd):
     cfgd["iteration_limit"] = 400 if fam != "BAND" else 200
     if rng.random() < 0.3:
         cfgd["rho"] = float(10.0 ** rng.uniform(-6, 1))
+    if rng.random() < 0.25:
+        cfgd.update(C.rare_params(rng, allow_unvalidated=True))
     case = work.mk_case(fam, gseed, cfgd)
     case["y0"] = "rand" if rng.random() < 0.4 else "none"
     if fam == "BAND":
